@@ -72,6 +72,11 @@ pub fn element_queries(as_of: Option<u64>) -> Vec<String> {
             continue;
         }
         for state in STATES {
+            // `merged` is a Concept state; `quarantined` is set through the
+            // host Governance API only and never by a statement enumerated here.
+            if state == "quarantined" || (state == "merged" && kind != "CONCEPT") {
+                continue;
+            }
             out.push(format!(r#"FIND(?x) WHERE {{ ?x {kind} {{state: "{state}"}} }}{at}"#));
         }
     }
@@ -240,7 +245,6 @@ pub fn dump(nx: &Nx, spec: &Spec, now: Option<Dump>) -> Dump {
         for text in belief_queries(Some(k)) {
             run_into(nx, &mut out, text);
         }
-        slots_into(nx, &mut out, spec, Some(k));
         run_into(nx, &mut out, format!("SNAPSHOT AS OF SEQ {k}"));
         run_into(nx, &mut out, format!("DESCRIBE SCHEMA ENVIRONMENT AS OF SEQ {k}"));
     }
